@@ -11,7 +11,7 @@ Observables compared with the model (inside Coq):
                (u * mask) @ W in the model's layout and design order (float32: relative tolerance);
   importances  estimate_importance(...) = model (tolerance; guarded by the conditioning of the variance);
 plus implementation-only checks: non-negativity of U, W, transform output and importances, row counts, identical
-transform for several batch sizes, importances unchanged under logits -> a*logits + b, exact zero for a concept
+transform for several batch sizes, importances unchanged under logits -> a*logits + b, zero (|.| <= 1e-12) for a concept
 whose bank row is zero, stored sensitivity = returned importances.
 """
 import copy
@@ -352,7 +352,9 @@ def run_impl(case):
         flags["importance_finite"] = finite
         flags["importance_nonneg"] = finite and bool(np.all(imp >= 0))
         if case["zero_row"] is not None:
-            flags["zero_row_zero_importance"] = finite and float(imp[case["zero_row"]]) == 0.0
+            # zero up to the rounding of the library's float32 matmul (identical rows of (u * mask) @ W at different row
+            # positions may differ in the last bit: observed 6.7e-33 once in 400 cases); a defect gives 1/n or more
+            flags["zero_row_zero_importance"] = finite and abs(float(imp[case["zero_row"]])) <= 1e-12
     # affine rescaling of the logits (same object otherwise)
     a, b = case["affine"]
     craft.latent_to_logit_model = Head(a, b)
